@@ -51,6 +51,7 @@ func setupFixtures() {
 		regCert("y.inagent", k2, ysshcaKeyID(true, false, false, false, 1, "a000000006"), t-h, t+h, nil)
 		regCert("y.sudoinagent", k2, ysshcaKeyID(true, false, false, false, 1, "a000000007"), t-h, t+h, map[string]string{"touchless-sudo-hosts": "h1"})
 		regCert("y.headless", k2, ysshcaKeyID(false, false, true, false, 1, "a000000008"), t-h, t+h, nil)
+		regCert("y.lapsing", k1, ysshcaKeyID(false, true, false, false, 3, "a00000000a"), t-h, t+10, nil) // hidden in no-upstream mode, lapses during a history
 		regCert("y.default", k2, ysshcaKeyID(false, false, false, false, 0, "a000000009"), t-h, t+h, nil)
 		regCert("n.missing", k1, `{"prins":["alice"],"transID":"b1","reqUser":"alice","reqIP":"1.2.3.4","reqHost":"h","isFirefighter":false,"isHWKey":true,"isHeadless":false,"isNonce":false,"usage":0,"ver":1}`, t-h, t+h, nil)
 		regCert("n.ver2", k1, `{"prins":["alice"],"transID":"b2","reqUser":"alice","reqIP":"1.2.3.4","reqHost":"h","isFirefighter":false,"isHWKey":true,"isHeadless":false,"isNonce":false,"usage":0,"touchPolicy":1,"ver":2}`, t-h, t+h, nil)
